@@ -4,3 +4,4 @@ pub mod timing;
 pub mod curve_exact;
 pub mod framing;
 pub mod kv;
+pub mod hitobj;
